@@ -111,6 +111,10 @@ pub fn canon(v: &V) -> V {
                             if let Some(n) = canon_assets(&inner_c) {
                                 return V::Map(vec![(V::Text(k.clone()), n)]);
                             }
+                            // not summable (a non-constant entry, or a per-class sum beyond i128): the order
+                            // of an asset list is immaterial all the same
+                            let mut inner_c = inner_c;
+                            inner_c.sort_by_key(enc);
                             return V::Map(vec![(V::Text(k.clone()), V::Array(inner_c))]);
                         }
                     }
